@@ -153,6 +153,8 @@ def run(ctx):
     rule_mirror_pairing(ctx, "R09.5")
     # ---- R09.6 direction of the separation
     rule_separation_sign(ctx, "R09.6")
+    # ---- R09.7 the size used for offsets is the size of the box that is placed
+    rule_extent_agreement(ctx, "R09.7")
 
 
 AXIS_OF = {"reflect_horiz": "x", "reflect_vert": "y"}
@@ -289,4 +291,22 @@ def rule_separation_sign(ctx, rid):
             else:
                 ctx.ok(rid, key, "negated for %s, decided by the side alone" % sorted(routed))
     ctx.floor(rid, "separation_negations", n, 1)
+
+
+def rule_extent_agreement(ctx, rid):
+    """The placer offsets an instance by `boundbox_size` and compares positions through `boundbox`: the two are siblings and
+    must measure the same thing — the maximal extent of the cell outline on each axis (Outline::xmax / ymax)."""
+    ctx.rule(rid, "sibling agreement: every size / bounding-box accessor of a placed cell instance derives both of its extents from the outline's maxima (Outline::xmax and Outline::ymax), like its siblings do")
+    F = ctx.F
+    fl = get_flow(F)
+    sibs = [f for f in F.fns.values() if f.id.startswith("layout21tetris::") and f.kind != "Closure" and not f.derived and
+            re.search(r"(instance::Instance::boundbox_size|cell::Cell::boundbox_size|<instance::Instance as bbox::HasBoundBox>::boundbox)$", f.short)]
+    for f in sibs:
+        v = flow.vias_of(fl.deps(f.id, 0, ()))
+        missing = [m for m in ("Outline::xmax", "Outline::ymax") if m not in v]
+        if missing:
+            ctx.violation(rid, f.short, "%s does not derive its extent from %s although its siblings do: for a stepped (non-rectangular) outline it measures something other than the box that is placed, so instances are offset by the wrong amount" % (f.short, " / ".join(missing)), "%s:%d" % (f.sp[0], f.sp[1]), f.short)
+        else:
+            ctx.ok(rid, f.short, "extent from Outline::xmax / ymax")
+    ctx.floor(rid, "extent_accessors", len(sibs), 3)
 
